@@ -50,7 +50,13 @@ KeyBitSeqs(keys) == [k \in 1..Len(keys) |-> SBits(keys[k])]
 \* ---------------------------------------------------------------- ShardByPrefix (C17): a relation
 AllAgree(keys, s, e, n) == \A k \in s..e : Len(keys[k]) >= n /\ Take(keys[k], n) = Take(keys[s], n)
 \* longest common prefix, in bytes, of keys[s..e] (1-based, inclusive); a single key: its own length
-LCPBytes(keys, s, e) == Max({n \in 0..Len(keys[s]) : AllAgree(keys, s, e, n)})
+LCPBytesDef(keys, s, e) == Max({n \in 0..Len(keys[s]) : AllAgree(keys, s, e, n)})
+\* the same through the first differing byte of each key against the first one (linear in the key length, so
+\* that keys of 10^5 bytes can be judged); MC_SigBits checks LCPBytes = LCPBytesDef
+LCP2(a, b) == LET n == SMin(Len(a), Len(b))
+                  D == {i \in 1..n : a[i] # b[i]}
+              IN IF D = {} THEN n ELSE Min(D) - 1
+LCPBytes(keys, s, e) == Min({LCP2(keys[s], keys[k]) : k \in s..e})
 StrictlyAscending(keys) == \A i \in 1..(Len(keys) - 1) : LexCmp(keys[i], keys[i + 1]) = -1
 ShardOK(keys, maxSize, L, B) ==
     /\ Len(B) >= 2 /\ Len(L) = Len(B) - 1
